@@ -489,7 +489,8 @@ PROPS["C02"] = dict(
     time_limit=dict(quick=900, thorough=5400))
 
 # ------------------------------------------------------------------------------------------------ C19
-C19_LB = {"record_all_fields", "record_at_current_iteration", "recorded_u_is_incumbent", "recorded_x_is_inverse_transform_of_u",
+C19_LB = {"noisy_incumbent_point_and_observation_belong_together", "noisy_incumbent_survives_next_iteration",
+          "recorded_point_and_observation_belong_together", "record_all_fields", "record_at_current_iteration", "recorded_u_is_incumbent", "recorded_x_is_inverse_transform_of_u",
           "recorded_values_are_current", "no_record_between_searches", "incumbent_u_is_u_best", "recorded_value_never_above_previous_incumbent"}
 C19_TAIL = {"result_func_count_is_logger_count", "result_message_and_seed", "result_target_type", "result_problem_type", "result_mesh_size",
             "x_is_inverse_transform_of_final_u", "result_holds_copies", "result_fval_fsd_are_final_state", "deterministic_result_is_last_iterate",
@@ -499,12 +500,13 @@ C19_CH = {"or_unknown_key_rejected", "or_known_key_by_item_and_attribute", "or_u
           "ih_setitem_unknown_key_rejected", "witness_or", "witness_ih"}
 PROPS["C19"] = dict(
     jobs=lambda tier: lb_jobs("quick" if tier == "quick" else "thorough") + tail_jobs(tier) +
+    [J("h_lb:HLBNoisy", D=D, it=it, k0=-2) for D in ((1, 2) if tier == "quick" else (1, 2, 3)) for it in ((1, 2, 3) if tier == "quick" else (1, 2, 3, 4))] +
     [J("crosshair:ch_or", timeout_s=60 if tier == "quick" else 240), J("crosshair:ch_ih", timeout_s=90 if tier == "quick" else 300)],
     labels=C19_LB | C19_TAIL | C19_CH, required=sorted((C19_LB | C19_TAIL | C19_CH) - {"no_record_between_searches"}),
     bounds=dict(quick="record block of the loop body: D<=2 (symbolic counters); result construction: D<=2, <=4 recorded iterates, all noise levels; container clauses by CrossHair: symbolic str keys on OptimizeResult, symbolic indices (< 4) and values with enumerated keys on IterationHistory, per-condition timeout 60/90 s",
                 thorough="loop body D<=3; tail D<=3; CrossHair timeouts 240/300 s"),
     outside=["arbitrary *string* keys on IterationHistory (the dict hash realises a symbolic string: CrossHair 'Not confirmed'), replaced by an enumerated list of unknown keys",
-             "the noisy swap block inside the loop (history re-estimation through the GP)", "'recorded x was evaluated' follows from the incumbent invariant (I_inc) proved by the step harnesses"],
+             "the GP re-estimation of the history inside the noisy swap block is a stub writing arbitrary values", "'recorded x was evaluated' follows from the incumbent invariant (I_inc) proved by the step harnesses"],
     time_limit=dict(quick=900, thorough=5400))
 
 # ------------------------------------------------------------------------------------------------ C18
